@@ -30,7 +30,8 @@ SHARED = {"int64", "float64", "str", "bool", "datetime64[ns]", None}
 
 
 @st.composite
-def strat_case(draw, parsers="some", containers=("df", "df", "lf_full"), drop_rate=0, subsample_rate=0, regex_rate=0):
+def strat_case(draw, parsers="some", containers=("df", "df", "lf_full"), drop_rate=0, subsample_rate=0, regex_rate=0,
+               nan_rate=0):
     case = copy.deepcopy(draw(c08.shared_case()))
     case.pop("lazy_container", None)
     if parsers == "none" and case.get("parser_ops"):
@@ -48,8 +49,23 @@ def strat_case(draw, parsers="some", containers=("df", "df", "lf_full"), drop_ra
         cands = [c for c in case["spec"]["columns"] if c["name"] in names and c["name"] not in (case["spec"].get("unique") or [])]
         if cands:
             c = draw(st.sampled_from(cands))
-            c["name"], c["regex"], c["checks"] = "^" + c["name"] + "$", True, []
+            others = [n for n in names if n != c["name"] and n not in (case["spec"].get("unique") or [])]
+            if others and draw(st.booleans()):
+                # the pattern selects two columns (possibly of different physical types); the second one loses its own spec
+                o = draw(st.sampled_from(others))
+                case["spec"]["columns"] = [x for x in case["spec"]["columns"] if x["name"] != o]
+                c["name"] = "^(" + c["name"] + "|" + o + ")$"
+            else:
+                c["name"] = "^" + c["name"] + "$"
+            c["regex"], c["checks"] = True, []
             case["regex"] = True
+    if nan_rate and draw(st.integers(1, 10)) <= nan_rate:
+        # float NaN (not null) cells: outside the reference model's vocabulary, used by the reference-free oracles only
+        fl = [t for t in case["table"]["columns"] if t["phys"] == "float64" and t["cells"]]
+        if fl:
+            t = draw(st.sampled_from(fl))
+            rows = sorted(draw(st.sets(st.integers(0, len(t["cells"]) - 1), min_size=1, max_size=2)))
+            case["nan_cells"] = [[t["name"], r] for r in rows]
     case["container"] = draw(st.sampled_from(list(containers)))
     case["lazy"] = draw(st.booleans())
     n = sp.table_nrows(case["table"])
@@ -139,7 +155,15 @@ def na_false_undefined(spec, table):
 def build(case):
     spec, table = case["spec"], case["table"]
     schema = sp.polars_schema(spec)
-    frame = sp.polars_frame(table, lazy=case.get("container", "df") != "df")
+    frame = sp.polars_frame(table, lazy=False)
+    for name, r in case.get("nan_cells") or []:
+        import polars as pl
+
+        col = frame[name].to_list()
+        col[r] = float("nan")
+        frame = frame.with_columns(pl.Series(name, col, dtype=pl.Float64))
+    if case.get("container", "df") != "df":
+        frame = frame.lazy()
     return schema, frame
 
 
@@ -256,6 +280,8 @@ def base_labels(ev, case):
         ev.labels.append("op=" + op)
     if case.get("regex"):
         ev.labels.append("regex-column")
+    if case.get("nan_cells"):
+        ev.labels.append("float-NaN-cells")
     if case["spec"].get("drop_invalid_rows"):
         ev.labels.append("drop_invalid_rows")
     if case.get("opts"):
@@ -406,6 +432,7 @@ def eval_c02(case):
     if why:
         ev.skipped = why
         return ev
+    no_ref = bool(case.get("nan_cells"))  # float NaN: lazy/eager agreement and the counts only
     try:
         ref = refmodel.ref_validate(spec, table)
     except refmodel.Undefined as e:
@@ -426,12 +453,19 @@ def eval_c02(case):
         return ev
     container = case.get("container", "df")
     ev.labels.append("container=" + container)
+    if no_ref:
+        ev.labels.append("float-NaN-cells")
     ev.labels.append(f"ref_errors={min(len(ref.errors), 5)}")
-    ev.nontrivial = len(ref.reasons) >= 2
-    if ev.nontrivial:
+    ev.nontrivial = len(ref.reasons) >= 2 or no_ref
+    if len(ref.reasons) >= 2:
         ev.labels.append("multi-reason")
     eager = run_validate(schema, frame, container, lazy=False)
     lazy = run_validate(schema, frame, container, lazy=True)
+    if no_ref and "internal" in (eager["kind"], lazy["kind"]):
+        bad = eager if eager["kind"] == "internal" else lazy
+        ev.add(f"internal-exception:{bad['exc_type']}@{bad['where']}", {"msg": bad["msg"][:200], "features": features(case),
+                                                                         "nan_cells": case["nan_cells"]})
+        return ev
     if "internal" in (eager["kind"], lazy["kind"]) or "usage" in (eager["kind"], lazy["kind"]):
         ev.labels.append("internal-or-usage-outcome")
         return ev
@@ -440,7 +474,7 @@ def eval_c02(case):
         ev.add("lazy-eager-verdict-differ", {"eager": eager["kind"], "lazy": lazy["kind"], "features": feats,
                                              "eager_reasons": eager.get("reasons"), "lazy_reasons": lazy.get("reasons")})
         return ev
-    if (eager["kind"] == "ok") != ref.accept:
+    if not no_ref and (eager["kind"] == "ok") != ref.accept:
         ev.add("verdict-differs-from-reference:" + ("accepts" if eager["kind"] == "ok" else "rejects:" + "+".join(lazy.get("reasons", []))),
                {"reference": [e.key() for e in ref.errors][:5], "features": feats, "msg": str(lazy.get("exc"))[:300]})
         return ev
@@ -469,6 +503,8 @@ def eval_c02(case):
             ev.add("error_counts-mismatch", {"error_counts": counts, "by_reason": dict(actual)})
     except Exception as e:
         ev.add("error_counts-unreadable", repr(e)[:200])
+    if no_ref:
+        return ev
     try:
         got_cells, got_frame = c08.failing_cells_polars(le)
     except Exception as e:
@@ -692,9 +728,9 @@ def strat_c20(draw):
     opts = {}
     w = draw(st.integers(0, 2))
     if w in (0, 2):
-        opts["head"] = draw(st.integers(0, n))
+        opts["head"] = draw(st.integers(0, n + 2))  # may exceed the number of rows
     if w in (1, 2):
-        opts["tail"] = draw(st.integers(0, n))
+        opts["tail"] = draw(st.integers(0, n + 2))
     try:
         bad = sorted(refmodel.ref_validate(case["spec"], case["table"]).bad_rows)
     except refmodel.Undefined:
@@ -746,9 +782,14 @@ def _kf_c11_nonrow(family, case, disc):
 
 @known.finding("C03/polars-drop_invalid_rows-swallows-non-row-errors")
 def _kf_c03_nonrow(family, case, disc):
+    d = disc.detail if isinstance(disc.detail, dict) else {}
+    if family == "polars" and _drop(case) and disc.kind == "revalidation-changes-result":
+        # a swallowed coercion error: the frame comes back uncoerced (rows filtered), the second pass coerces what is left
+        coerces = case["spec"].get("coerce") or any(c.get("coerce") for c in case["spec"]["columns"])
+        a, b = d.get("first") or {}, d.get("second") or {}
+        return bool(coerces) and a.get("schema") != b.get("schema") and [x[0] for x in a.get("schema", [])] == [x[0] for x in b.get("schema", [])]
     if not (family == "polars" and _drop(case) and ":drop:" in disc.kind and disc.kind.startswith("returned-object-violates")):
         return False
-    d = disc.detail if isinstance(disc.detail, dict) else {}
     reasons = set(disc.kind.split(":")[-1].split("+"))
     if "WRONG_DATATYPE" in reasons:
         reasons.discard("CHECK_ERROR")  # a check that crashed on the wrong-dtype column that was let through
